@@ -196,7 +196,11 @@ class Objective(Contract):
         return harness.build(S, case["_cfg"])
 
     def call(self, S, case, b):
-        return run_optimizer(S, b, S.symbolic)
+        # the caller's arrays before the providers are built (data and weights are weighted / scaled on copies only)
+        before = {(lab, name): np.array(v.values, dtype=object, copy=True) for lab, ds in b.scheme.data.items() for name, v in ds.data_vars.items()}
+        r = run_optimizer(S, b, S.symbolic)
+        r.callers_arrays = (before, {(lab, name): np.array(v.values, dtype=object, copy=True) for lab, ds in b.scheme.data.items() for name, v in ds.data_vars.items()})
+        return r
 
     def observe(self, out):
         return out if isinstance(out, Raised) else flat(out.penalty)
@@ -210,6 +214,9 @@ class Objective(Contract):
         cfg = b.cfg
         yield "groups_in_model_order", out.group_names == list(dict.fromkeys(ds.group for ds in cfg.datasets))
         yield "nothing_solved_before_the_first_evaluation", out.n_log_init == 0
+        if hasattr(out, "callers_arrays"):
+            before, after = out.callers_arrays
+            yield "data_and_weights_of_the_scheme_are_weighted_on_copies_only", sorted(before) == sorted(after) and L.and_(*[L.eq(x, y) for key in before for x, y in zip(flat(before[key]), flat(after[key]))])
         # every dataset is in exactly the group it names (interleaved declarations included), in declaration order
         members = [list(g.dataset_models.keys()) if hasattr(g, "dataset_models") else None for g in (getattr(og, "_dataset_group", None) for og in out.groups)]
         want_members = [[ds.label for ds in cfg.datasets if ds.group == gname] for gname in out.group_names]
